@@ -687,6 +687,18 @@ func (s *scn) preludeGatefail() {
 			continue
 		}
 		s.quiesce()
+		if s.r.Bool() {
+			// a termination signal queued during start-up (nothing reads signalChan before reap):
+			// the gate's failure must still be what Run() returns
+			s.shutdownTriggered = true
+			sig := syscall.SIGTERM
+			name := "Sig term"
+			if s.r.Bool() {
+				sig, name = syscall.SIGINT, "Sig int"
+			}
+			s.apiCall(name, func() { s.sup.SendSignal(sig) })
+			s.quiesce()
+		}
 		s.runReleased[0] = true
 		s.cores[0].RunRelease <- s.mkErr(false)
 		s.quiesce()
